@@ -134,6 +134,7 @@ type Solver struct {
 	workDir  string
 	timeout  time.Duration
 	keep     bool
+	retry    bool // second, longer race before a timeout is reported
 	mu       sync.Mutex
 	wins     map[string]int
 	secs     map[string]float64
@@ -321,12 +322,17 @@ var solverCmds = []solverCmd{
 }
 
 func runSolver(sc solverCmd, file string, timeout time.Duration) SolveResult {
+	return runSolverCtx(context.Background(), sc, file, timeout)
+}
+
+// runSolverCtx: parent cancellation (another solver of the race already decided) kills the process.
+func runSolverCtx(parent context.Context, sc solverCmd, file string, timeout time.Duration) SolveResult {
 	secs := int(timeout.Seconds())
 	if secs < 1 {
 		secs = 1
 	}
 	argv := sc.args(file, secs)
-	ctx, cancel := context.WithTimeout(context.Background(), timeout+2*time.Second)
+	ctx, cancel := context.WithTimeout(parent, timeout+2*time.Second)
 	defer cancel()
 	t0 := time.Now()
 	cmd := exec.CommandContext(ctx, argv[0], argv[1:]...)
@@ -379,8 +385,10 @@ func (s *Solver) Discharge(name string, text string) SolveResult {
 	raceSem <- struct{}{}
 	defer func() { <-raceSem }()
 	ch := make(chan SolveResult, len(solverCmds))
+	rctx, rcancel := context.WithCancel(context.Background())
+	defer rcancel()
 	for _, sc := range solverCmds {
-		go func(sc solverCmd) { ch <- runSolver(sc, file, s.timeout) }(sc)
+		go func(sc solverCmd) { ch <- runSolverCtx(rctx, sc, file, s.timeout) }(sc)
 	}
 	var best SolveResult
 	got := 0
@@ -397,6 +405,32 @@ func (s *Solver) Discharge(name string, text string) SolveResult {
 		}
 		if best.Status == "" || (best.Status == "error" && rr.Status != "error") {
 			best = rr
+		}
+	}
+	if best.Status == "timeout" && s.retry {
+		// slow queries are the unstable ones: before an obligation is reported as undischarged
+		// it gets a second, longer race with additional random seeds
+		retry := append([]solverCmd{}, solverCmds...)
+		for _, sd := range []int{3, 11, 23} {
+			sd := sd
+			retry = append(retry, solverCmd{fmt.Sprintf("z3-5.1.0/seed%d", sd), func(f string, t int) []string {
+				return []string{"/usr/local/bin/z3-new", fmt.Sprintf("-T:%d", t), fmt.Sprintf("smt.random_seed=%d", sd), f}
+			}})
+		}
+		ch2 := make(chan SolveResult, len(retry))
+		for _, sc := range retry {
+			go func(sc solverCmd) { ch2 <- runSolverCtx(rctx, sc, file, 4*s.timeout) }(sc)
+		}
+		for i := 0; i < len(retry); i++ {
+			rr := <-ch2
+			s.account(rr)
+			if rr.Status == "unsat" {
+				best = rr
+				break
+			}
+			if rr.Status == "sat" && best.Status != "sat" {
+				best = rr
+			}
 		}
 	}
 	s.cleanup(file, best)
